@@ -564,3 +564,151 @@ Proof.
   - rewrite H. subst u. reflexivity.
   - rewrite H. unfold standardize. destruct u as [|c u]; [congruence|]. reflexivity.
 Qed.
+
+(* ====================================================================================== *)
+(* 7. the value/description order is a matter of the text only (C12)                       *)
+(* ====================================================================================== *)
+(* what is on disk for each order *)
+Lemma format_value_first fstr lw mw it :
+  format_item fstr ValueDescr lw mw it =
+  layout [] (i_orig it) (pad1 lw it) (i_unit it) (pad2 fstr ValueDescr mw it) (vstr fstr (i_value it))
+         [32] [32] (i_descr it) [].
+Proof. apply format_is_layout. Qed.
+Lemma format_descr_first fstr lw mw it :
+  format_item fstr DescrValue lw mw it =
+  layout [] (i_orig it) (pad1 lw it) (i_unit it) (pad2 fstr DescrValue mw it) (i_descr it)
+         [32] [32] (vstr fstr (i_value it)) [].
+Proof. apply format_is_layout. Qed.
+
+(* an item written for version v1 and read as version v1, and the same item written for v2 and
+   read as v2 (column widths arbitrary, possibly different), give the same item: the expected
+   item mentions neither the version nor the order *)
+Theorem version_swap_meaning fstr k c it v1 v2 lw1 mw1 lw2 mw2 : is_std k = true ->
+  let o1 := sec_ord v1 (sect_table_name k) it in
+  let o2 := sec_ord v2 (sect_table_name k) it in
+  conf_item fstr k o1 lw1 mw1 it = true -> covers fstr o1 lw1 mw1 it ->
+  conf_item fstr k o2 lw2 mw2 it = true -> covers fstr o2 lw2 mw2 it ->
+  parse_line v1 k c (format_item fstr o1 lw1 mw1 it) = Some (expected_item fstr k c it) /\
+  parse_line v2 k c (format_item fstr o2 lw2 mw2 it) = Some (expected_item fstr k c it).
+Proof.
+  intros Hk o1 o2 Hc1 Hv1 Hc2 Hv2. split; apply item_roundtrip; try assumption.
+  - unfold o1, sec_ord. rewrite (writer_order_is_reader_order v1 k c (i_orig it) Hk). reflexivity.
+  - unfold o2, sec_ord. rewrite (writer_order_is_reader_order v2 k c (i_orig it) Hk). reflexivity.
+Qed.
+
+(* for ~Well the two orders really differ between 1.2 and 2.0, except for the listed mnemonics *)
+Lemma well_orders_differ it : is_exception V12 KWell (i_orig it) = false ->
+  sec_ord V12 (sect_table_name KWell) it = DescrValue /\ sec_ord V20 (sect_table_name KWell) it = ValueDescr.
+Proof.
+  intros Hx. unfold sec_ord.
+  rewrite !(order_tables_agree _ KWell _ eq_refl).
+  rewrite (order_for_default V12 KWell _ eq_refl Hx), well_default_12.
+  rewrite (order_for_default V20 KWell _ eq_refl (well_20_no_exception _)), well_default_20. split; reflexivity.
+Qed.
+
+(* ====================================================================================== *)
+(* 8. ~Curves: "no '..' in the line" from conditions on the fields                         *)
+(* ====================================================================================== *)
+Definition dd (s : list N) : bool := contains [46; 46] s.
+
+Lemma dd_nil : dd [] = false.
+Proof. reflexivity. Qed.
+
+Lemma dd_cons x s : dd (x :: s) = ((x =? 46) && startswith [46] s) || dd s.
+Proof.
+  unfold dd. rewrite contains_cons. f_equal. cbn [startswith]. rewrite (N.eqb_sym 46 x). reflexivity.
+Qed.
+
+Lemma sw_app_ne (a b : list N) : a <> [] -> startswith [46] (a ++ b) = startswith [46] a.
+Proof. destruct a as [|x a]; [congruence|]. intros _. cbn [app startswith]. reflexivity. Qed.
+
+Lemma ew_single x : endswith [46] [x] = (x =? 46).
+Proof. unfold endswith. cbn [rev app startswith]. rewrite andb_true_r. apply N.eqb_sym. Qed.
+
+(* no ".." in a ++ b when there is none in a, none in b, and none across the seam *)
+Lemma dd_app_false : forall a b,
+  dd a = false -> dd b = false -> endswith [46] a = false \/ startswith [46] b = false ->
+  dd (a ++ b) = false.
+Proof.
+  induction a as [|x a IH]; intros b Ha Hb Hseam; [exact Hb|].
+  cbn [app]. rewrite dd_cons in Ha |- *. apply orb_false_iff in Ha as [Hx Ha].
+  destruct a as [|y a].
+  - cbn [app]. rewrite Hb, orb_false_r. rewrite ew_single in Hseam.
+    destruct Hseam as [-> | ->]; [reflexivity|apply andb_false_r].
+  - rewrite IH; [|exact Ha|exact Hb|].
+    + rewrite orb_false_r. rewrite sw_app_ne by discriminate. exact Hx.
+    + destruct Hseam as [H|H]; [left|right; exact H].
+      change (x :: y :: a) with ([x] ++ (y :: a)) in H.
+      rewrite endswith_app_ne in H by discriminate. exact H.
+Qed.
+
+Lemma nodot_dd s : in_str 46 s = false -> dd s = false.
+Proof.
+  induction s as [|x s IH]; intros H; [reflexivity|]. rewrite in_str_cons in H.
+  apply orb_false_iff in H as [Hx Hs]. rewrite dd_cons, (IH Hs), (N.eqb_sym x 46), Hx. reflexivity.
+Qed.
+
+Lemma nodot_ew s : in_str 46 s = false -> endswith [46] s = false.
+Proof.
+  intros H. unfold endswith. cbn [rev app]. destruct (rev s) as [|x r] eqn:E; [reflexivity|].
+  cbn [startswith]. rewrite andb_true_r.
+  assert (Hin : In x s) by (apply in_rev; rewrite E; left; reflexivity).
+  destruct (46 =? x) eqn:Ex; [|reflexivity]. apply N.eqb_eq in Ex. subst x.
+  unfold in_str in H. assert (Ht : existsb (N.eqb 46) s = true)
+    by (apply existsb_exists; exists 46; split; [exact Hin|apply N.eqb_refl]).
+  rewrite Ht in H. discriminate.
+Qed.
+
+Lemma nodot_sw s : in_str 46 s = false -> startswith [46] s = false.
+Proof.
+  destruct s as [|x s]; [reflexivity|]. rewrite in_str_cons. intros H.
+  apply orb_false_iff in H as [Hx _]. cbn [startswith]. rewrite Hx. reflexivity.
+Qed.
+
+Lemma blanks_nodot p : blanks p = true -> in_str 46 p = false.
+Proof. apply blanks_in_str. reflexivity. Qed.
+
+(* unit without "..", not starting with '.'; the two text fields without ".." *)
+Definition curves_fields_ok (fstr : list N -> list N) (o : item_order) (it : hitem) : bool :=
+  negb (dd (i_unit it)) && negb (startswith [46] (i_unit it)) &&
+  negb (dd (rhs_text fstr o it)) && negb (dd (tail_text fstr o it)).
+
+Theorem curves_line_ok fstr o lw mw it :
+  conf_mnem (i_orig it) = true -> conf_unit (i_unit it) = true -> covers fstr o lw mw it ->
+  curves_fields_ok fstr o it = true ->
+  no_double_dot (format_item fstr o lw mw it) = true.
+Proof.
+  intros Hm Hu Hcov Hf. unfold curves_fields_ok in Hf.
+  apply andb_true_iff in Hf as [Hf Ht]. apply andb_true_iff in Hf as [Hf Hr].
+  apply andb_true_iff in Hf as [Hud Hus].
+  apply negb_true_iff in Ht, Hr, Hud, Hus.
+  unfold conf_mnem in Hm. apply andb_true_iff in Hm as [Hm _]. apply andb_true_iff in Hm as [Hm _].
+  apply andb_true_iff in Hm as [_ Hmd]. apply negb_true_iff in Hmd.
+  unfold conf_unit in Hu. apply andb_true_iff in Hu as [Hu _]. apply andb_true_iff in Hu as [_ Hue].
+  apply negb_true_iff in Hue.
+  pose proof (pad2_nonempty fstr o lw mw it Hcov) as Hp2.
+  pose proof (blanks_nodot _ (blanks_pad2 fstr o mw it)) as Hp2d.
+  pose proof (blanks_nodot _ (blanks_pad1 lw it)) as Hp1d.
+  unfold no_double_dot. apply negb_true_iff. change (contains [46; 46]) with dd.
+  rewrite format_is_layout. unfold layout. cbn [app]. rewrite app_nil_r.
+  set (rhs := rhs_text fstr o it) in *. set (tail := tail_text fstr o it) in *.
+  set (p2 := pad2 fstr o mw it) in *. set (p1 := pad1 lw it) in *.
+  (* from the right *)
+  assert (T0 : dd (32 :: 58 :: 32 :: tail) = false).
+  { rewrite !dd_cons. cbn. exact Ht. }
+  assert (T1 : dd (rhs ++ 32 :: 58 :: 32 :: tail) = false).
+  { apply dd_app_false; [exact Hr|exact T0|right; reflexivity]. }
+  assert (T2 : dd (p2 ++ rhs ++ 32 :: 58 :: 32 :: tail) = false).
+  { apply dd_app_false; [apply nodot_dd; exact Hp2d|exact T1|left; apply nodot_ew; exact Hp2d]. }
+  assert (S2 : startswith [46] (p2 ++ rhs ++ 32 :: 58 :: 32 :: tail) = false).
+  { rewrite sw_app_ne by exact Hp2. apply nodot_sw. exact Hp2d. }
+  assert (T3 : dd (i_unit it ++ p2 ++ rhs ++ 32 :: 58 :: 32 :: tail) = false).
+  { apply dd_app_false; [exact Hud|exact T2|right; exact S2]. }
+  assert (S3 : startswith [46] (i_unit it ++ p2 ++ rhs ++ 32 :: 58 :: 32 :: tail) = false).
+  { destruct (i_unit it) as [|c u] eqn:E; [exact S2|]. rewrite sw_app_ne by discriminate. exact Hus. }
+  assert (T4 : dd (46 :: i_unit it ++ p2 ++ rhs ++ 32 :: 58 :: 32 :: tail) = false).
+  { rewrite dd_cons, S3, T3. reflexivity. }
+  rewrite app_assoc. apply dd_app_false; [|exact T4|left].
+  - apply nodot_dd. rewrite in_str_app, Hmd, Hp1d. reflexivity.
+  - apply nodot_ew. rewrite in_str_app, Hmd, Hp1d. reflexivity.
+Qed.
